@@ -23,7 +23,7 @@ PROPS = {
 PROPS["C01"] = {
     "witness_fns": {"stdext_groupingmap": ["insert", "end_group", "begin_group"]},
     "witness_always": ["stdlib_scoping"],
-    "witness_bound": {"stdlib_scoping": "real VM + full stdlib vs a stack-of-snapshots model: every program of <= 3 operations, of 4 operations opening a group in the first two, of 5 starting with two nested groups (thorough: all 345k programs of <= 5) over 17 operations: {, }, local/global \\count, \\countdef alias, \\def/\\gdef of a control sequence and of an ACTIVE character, \\let, \\catcode, \\globaldefs in {1,-1,0}; all values read after every step"},
+    "witness_bound": {"stdlib_scoping": "real VM + full stdlib vs a stack-of-snapshots model: every program of <= 3 operations, of 4 operations opening a group in the first two, of 5 starting with two nested groups (thorough: all 345k programs of <= 5) over 23 operations: {, }, local/global \\count, \\advance, \\countdef alias, \\def of a control sequence and of an ACTIVE character, \\def behind several prefixes (\\long, \\long\\global, \\global\\long\\outer, \\outer\\long\\global), \\let, \\catcode, \\globaldefs in {1,-1,0}; all values read after every step"},
     "level": "proof",
     "verus": ["stdext_groupingmap", "texlang_savestack", "texlang_cmdmap", "texlang_vmgroups", "stdlib_prefix"],
     "kani": [],
